@@ -134,7 +134,11 @@ class CacheModel:
                 if isinstance(f, ast.Attribute) and f.attr == 'update' and self.sym(f.value) and self.kind(f.value) == 'hash':
                     out.append(dict(ev='hash-update', sym=f.value, arg=c.args[0] if c.args else None, eff=e))
                 elif isinstance(f, ast.Attribute) and f.attr in ('write', 'writelines') and c.args:
-                    out.append(dict(ev='write', file=f.value, arg=c.args[0], eff=e))
+                    arg = c.args[0]
+                    if f.attr == 'writelines':
+                        # f.writelines(parts) writes ''.join(parts)
+                        arg = ast.Call(func=ast.Attribute(value=ast.Constant(value=''), attr='join', ctx=ast.Load()), args=[arg], keywords=[])
+                    out.append(dict(ev='write', file=f.value, arg=arg, eff=e))
                 elif nm in ('os.replace', 'os.rename', 'shutil.move') and len(c.args) >= 2:
                     out.append(dict(ev='replace', src=c.args[0], dst=c.args[1], eff=e))
                 elif nm in ('os.remove', 'os.unlink') and c.args:
@@ -194,12 +198,24 @@ class CacheModel:
         return None
 
 
+def display_elements(e):
+    """the elements of a list / tuple written as a display, or as displays added together"""
+    if isinstance(e, (ast.List, ast.Tuple)) and not any(isinstance(x, ast.Starred) for x in e.elts):
+        return list(e.elts)
+    if isinstance(e, ast.BinOp) and isinstance(e.op, ast.Add):
+        a, b = display_elements(e.left), display_elements(e.right)
+        if a is not None and b is not None:
+            return a + b
+    return None
+
+
 def concat_operands(e):
     if isinstance(e, ast.BinOp) and isinstance(e.op, ast.Add):
         return concat_operands(e.left) + concat_operands(e.right)
-    if isinstance(e, ast.Call) and isinstance(e.func, ast.Attribute) and e.func.attr == 'join' and e.args and isinstance(e.args[0], (ast.List, ast.Tuple)):
+    if isinstance(e, ast.Call) and isinstance(e.func, ast.Attribute) and e.func.attr == 'join' and len(e.args) == 1 and not e.keywords \
+            and isinstance(e.func.value, ast.Constant) and e.func.value.value == '' and display_elements(e.args[0]) is not None:
         out = []
-        for x in e.args[0].elts:
+        for x in display_elements(e.args[0]):
             out.extend(concat_operands(x))
         return out
     return [e]
